@@ -3,10 +3,13 @@ package main
 import (
 	"bytes"
 	"context"
+	"crypto/tls"
 	"fmt"
 	"io"
 	"math/rand"
 	"net"
+	"os"
+	"path/filepath"
 	"sort"
 	"strings"
 	"sync"
@@ -15,6 +18,7 @@ import (
 
 	"google.golang.org/grpc"
 	"google.golang.org/grpc/codes"
+	"google.golang.org/grpc/credentials"
 	"google.golang.org/grpc/credentials/insecure"
 	"google.golang.org/grpc/encoding"
 	"google.golang.org/grpc/metadata"
@@ -106,13 +110,14 @@ type c16Backend struct {
 	calls   atomic.Int64
 }
 
-func newC16Backend(name string, scripts *sync.Map) (*c16Backend, error) {
+func newC16Backend(name string, scripts *sync.Map, creds ...grpc.ServerOption) (*c16Backend, error) {
 	ln, err := net.Listen("tcp", "127.0.0.1:0")
 	if err != nil {
 		return nil, err
 	}
 	b := &c16Backend{name: name, ln: &countingListener{Listener: ln}, scripts: scripts}
-	b.srv = grpc.NewServer(grpc.UnknownServiceHandler(b.handle), grpc.MaxRecvMsgSize(16<<20), grpc.MaxSendMsgSize(16<<20))
+	opts := append([]grpc.ServerOption{grpc.UnknownServiceHandler(b.handle), grpc.MaxRecvMsgSize(16 << 20), grpc.MaxSendMsgSize(16 << 20)}, creds...)
+	b.srv = grpc.NewServer(opts...)
 	go b.srv.Serve(b.ln)
 	return b, nil
 }
@@ -245,8 +250,23 @@ func c16GRPC(c *ctx) {
 		backs[n] = b
 		defer b.srv.Stop()
 	}
+	// a TLS backend behind a grpcs listener
+	dcrt := c11Make("delta-cert.pem", "delta.test")
+	delta, err := newC16Backend("delta", &scripts, grpc.Creds(credentials.NewTLS(&tls.Config{Certificates: []tls.Certificate{dcrt.TLS}})))
+	if err != nil {
+		c.R.Inconcl("tls backend: %v", err)
+		return
+	}
+	backs["delta"] = delta
+	defer delta.srv.Stop()
+	certDir := filepath.Join(c.Dir, "c16cert")
+	os.MkdirAll(certDir, 0o755)
+	lcrt := c11Make("l-cert.pem", "fabio.test")
+	os.WriteFile(filepath.Join(certDir, "l-cert.pem"), lcrt.CertPEM, 0o644)
+	os.WriteFile(filepath.Join(certDir, "l-key.pem"), lcrt.KeyPEM, 0o644)
 	grpcAddr := fmt.Sprintf("127.0.0.1:%d", freePort())
-	rg, err := newRig(c, "grpc", []string{"-proxy.addr", grpcAddr + ";proto=grpc", "-proxy.grpcshutdowntimeout", "1s", "-proxy.grpcmaxrxmsgsize", "16777216", "-proxy.grpcmaxtxmsgsize", "16777216", "-log.level", "WARN"})
+	grpcsAddr := fmt.Sprintf("127.0.0.1:%d", freePort())
+	rg, err := newRig(c, "grpc", []string{"-proxy.addr", grpcAddr + ";proto=grpc," + grpcsAddr + ";proto=grpcs;cs=cs1", "-proxy.cs", "cs=cs1;type=path;cert=" + certDir, "-proxy.grpcshutdowntimeout", "1s", "-proxy.grpcmaxrxmsgsize", "16777216", "-proxy.grpcmaxtxmsgsize", "16777216", "-log.level", "WARN"})
 	if err != nil {
 		c.R.Inconcl("cannot start fabio: %v", err)
 		return
@@ -261,6 +281,7 @@ func c16GRPC(c *ctx) {
 			}
 			insts["n0/alpha"] = mk("alpha", "urlprefix-/pkg.Alpha proto=grpc")
 			insts["n0/beta"] = mk("beta", "urlprefix-beta.test/pkg.Shared proto=grpc")
+			insts["n0/delta"] = mk("delta", "urlprefix-/pkg.Delta proto=grpcs tlsskipverify=true")
 			if withGamma {
 				insts["n0/gamma"] = mk("gamma", "urlprefix-/pkg.Shared proto=grpc")
 			} else {
@@ -283,6 +304,16 @@ func c16GRPC(c *ctx) {
 		return
 	}
 	defer cc.Close()
+	if !fabioproc.WaitListening(grpcsAddr, 20*time.Second) {
+		c.R.Inconcl("grpcs listener did not come up")
+		return
+	}
+	ccs, err := grpc.NewClient(grpcsAddr, grpc.WithTransportCredentials(credentials.NewTLS(&tls.Config{InsecureSkipVerify: true})), grpc.WithDefaultCallOptions(grpc.MaxCallRecvMsgSize(16<<20), grpc.MaxCallSendMsgSize(16<<20)))
+	if err != nil {
+		c.R.Inconcl("grpcs client: %v", err)
+		return
+	}
+	defer ccs.Close()
 	var seq atomic.Int64
 	call := func(r *rand.Rand) {
 		id := fmt.Sprintf("g%d", seq.Add(1))
@@ -310,7 +341,7 @@ func c16GRPC(c *ctx) {
 		if sc.Code != codes.OK && r.Intn(2) == 0 {
 			sc.Msgs = nil
 		}
-		route := choose(r, []string{"alpha", "beta", "gamma", "gamma-wronghost", "none"})
+		route := choose(r, []string{"alpha", "beta", "gamma", "gamma-wronghost", "none", "delta"})
 		method, dsthost, wantBackend := "", "", ""
 		switch route {
 		case "alpha":
@@ -323,6 +354,12 @@ func c16GRPC(c *ctx) {
 			method, dsthost, wantBackend = "/pkg.Shared/Do", "other.test", "gamma" // unknown host falls back to the host-less route
 		case "none":
 			method = "/pkg.Nothing/Here"
+		case "delta":
+			method, wantBackend = "/pkg.Delta/Secure", "delta"
+		}
+		conn := cc
+		if route == "delta" {
+			conn = ccs // TLS backends are reached through the grpcs listener
 		}
 		scripts.Store(id, sc)
 		defer scripts.Delete(id)
@@ -337,7 +374,7 @@ func c16GRPC(c *ctx) {
 		for n, b := range backs {
 			callsBefore[n] = b.calls.Load()
 		}
-		st, err := cc.NewStream(ctx, &grpc.StreamDesc{ServerStreams: true, ClientStreams: true}, method, grpc.ForceCodec(rawCodec{}))
+		st, err := conn.NewStream(ctx, &grpc.StreamDesc{ServerStreams: true, ClientStreams: true}, method, grpc.ForceCodec(rawCodec{}))
 		c.R.Eval(1)
 		desc := fmt.Sprintf("%s %s dsthost=%q send=%d scripted-replies=%d code=%s", kind, method, dsthost, len(send), len(sc.Msgs), sc.Code)
 		in := map[string]any{"call": desc}
@@ -506,6 +543,17 @@ func c16GRPC(c *ctx) {
 			break
 		}
 		c.R.MaxCounter("connection_drop_seconds_max", int64(time.Since(t0).Seconds()))
+		// meanwhile the TLS backend never left the table: after two cleanup rounds its pooled connection must still be the one in use
+		if dl := t0.Add(11 * time.Second); time.Now().Before(dl) {
+			time.Sleep(time.Until(dl))
+		}
+		dBefore := delta.ln.accepted.Load()
+		for i := 0; i < 6; i++ {
+			call(r0)
+		}
+		if delta.calls.Load() > 0 && dBefore >= 1 && (delta.ln.accepted.Load() > dBefore || delta.ln.open.Load() == 0) {
+			c.R.Violate("c16:connection-dropped-although-backend-in-table", fmt.Sprintf("the grpcs backend stayed in the table, yet after two cleanup rounds fabio opened a new connection to it (%d accepted, was %d; %d open)", delta.ln.accepted.Load(), dBefore, delta.ln.open.Load()), nil)
+		}
 		before := g.ln.accepted.Load()
 		reg(true)
 		if err := rg.barrier(); err != nil {
